@@ -73,6 +73,17 @@ def raw_pixel_stores(tree, exempt_classes=()):
     return out
 
 
+def _ancestors(node, stop):
+    p = getattr(node, '_parent', None)
+    while p is not None and p is not stop:
+        yield p
+        p = getattr(p, '_parent', None)
+
+
+def _within(node, block):
+    return any(node is x for st in block for x in ast.walk(st))
+
+
 def check(ctx, rep):
     # ---- (i) ---------------------------------------------------------------------------
     pos = raw_pixel_stores(ast.parse(POSITIVE_EXAMPLE))
@@ -114,6 +125,21 @@ def check(ctx, rep):
         pcjr_reset = isinstance(a.value, ast.Constant) and a.value.value == 0 and any('pcjr' in f.text and f.pol for f in fls.facts(a))
         rep.ob('page.omitted-active-page-stays', 'screen(): %s' % short(a, 50), pcjr_reset or (norm(a.value) == 'self.apagenum' and fls.knows(a, 'new_apagenum is None', True)),
                'SCREEN with the active page omitted moves the active page: graphics statements that follow draw on a page the program did not select', ctx.where(a))
+    # VIEW draws its fill and its frame (the ring just outside the new viewport) only when the argument is there.  The
+    # test has to see the argument as it arrived: _get_attr_index maps None to attribute 0
+    sv = ctx.fn(G + ':Graphics._set_view')
+    n_view = 0
+    for name, drawer in (('fill', 'self._draw_box_filled'), ('border', 'self._draw_box')):
+        for c in own_nodes(sv):
+            if isinstance(c, ast.Call) and norm(c.func) == drawer:
+                n_view += 1
+                guards = [p_ for p_ in _ancestors(c, sv) if isinstance(p_, ast.If) and norm(p_.test) == '%s is not None' % name and _within(c, p_.body)]
+                early = [short(a, 50) for g in guards for a in ast.walk(sv) if isinstance(a, ast.Assign) and name in [norm(e) for t in a.targets for e in getattr(t, 'elts', [t])]
+                         and a.lineno < g.lineno]
+                rep.ob('view.omitted-fill-and-border-draw-nothing', '_set_view: %s only if `%s` was given' % (short(c, 40), name), bool(guards) and not early,
+                       ('the argument is replaced before it is tested (%s): an omitted one has become attribute 0' % early[0]) if early else 'drawn whether or not the argument was given',
+                       ctx.where(c))
+    rep.floor('view.omitted-fill-and-border-draw-nothing', n_view, 2, 'drawing calls of _set_view')
     # display.cls_ goes through the gate too
     cls_ = ctx.fn(D + ':Display.cls_')
     raws = [n for n in own_nodes(cls_) if isinstance(n, ast.Assign) and isinstance(n.targets[0], ast.Subscript) and 'pixels' in norm(n.targets[0].value)]
@@ -275,6 +301,8 @@ def variants(ctx):
            expect='clip.range-corners-cut-to-screen'),
         Va('omitted-active-page-follows-visible-page', 'break', D, in_fn('Display.screen', lambda fn: mu.replace_stmt(fn, mu.text_is('new_apagenum = self.apagenum'), 'new_apagenum = self.vpagenum')),
            expect='page.omitted-active-page-stays'),
+        Va('view-converts-omitted-arguments-first', 'break', G, in_fn('Graphics._set_view', lambda fn: mu.insert_first(fn, 'fill = self._get_attr_index(fill)\nborder = self._get_attr_index(border)')),
+           expect='view.omitted-fill-and-border-draw-nothing'),
         mu.Variant('pcopy-shares-the-pixel-matrix', 'break', 'pcbasic/basic/display/buffers.py',
                    lambda tree: mu.replace_stmt(mu.find_def(tree, 'VideoBuffer.copy_from'), mu.text_is('self._pixels[:, :] = src._pixels'), 'self._pixels = src._pixels'),
                    expect='pcopy.pages-stay-separate'),
